@@ -160,15 +160,41 @@ def check_channels():
         "amplitude_damp(g)": (lambda g: cirq.amplitude_damp(g), lambda g: _ad_superop(g)),
         "phase_damp(g)": (lambda g: cirq.phase_damp(g), lambda g: _pd_superop(g)),
     }
+    # Pauli-string dictionaries (any key order, identity given or implied, one and two qubits): documented as "probability p(k) of
+    # applying the Pauli string k"
+    P = {"I": I2, "X": X, "Y": Y, "Z": Z}
+
+    def pauli_superop(d):
+        d = dict(d)
+        n = len(next(iter(d)))
+        if "I" * n not in d:
+            d["I" * n] = 1 - sum(d.values())
+        tot = 0
+        for k, pr in d.items():
+            m = np.eye(1)
+            for ch in k:
+                m = np.kron(m, P[ch])
+            tot = tot + pr * np.kron(m, m.conj())
+        return tot
+
+    for label, mkd in (("{Z: p}", lambda p: {"Z": p}), ("{Y: p, X: p/2}", lambda p: {"Y": p, "X": p / 2}), ("{XZ: p}", lambda p: {"XZ": p}), ("{ZI: p, IX: p/3}", lambda p: {"ZI": p, "IX": p / 3}),
+                       ("{ZZ: p/2, II: 1-p, XY: p/2}", lambda p: {"ZZ": p / 2, "II": 1 - p, "XY": p / 2}), ("{I: 1-p, Z: p}", lambda p: {"I": 1 - p, "Z": p})):
+        docs[f"asymmetric_depolarize(error_probabilities={label})"] = (lambda p, mkd=mkd: cirq.asymmetric_depolarize(error_probabilities=mkd(p)), lambda p, mkd=mkd: pauli_superop(mkd(p)))
     grid = [0.0, 0.1, 0.25, 0.5, 0.37, 0.75]
     for name, (mk, doc) in docs.items():
         for p in grid:
             if name == "asymmetric_depolarize" and p > 0.5:
                 continue
+            if "error_probabilities" in name and p * 1.5 > 1:
+                continue  # the probabilities would exceed one: rejected by the constructor, as documented
 
             def fn(mk=mk, doc=doc, p=p):
                 ks = cirq.kraus(mk(p))
-                ok = np.allclose(superop(ks), doc(p), atol=1e-9) and np.allclose(sum(k.conj().T @ k for k in ks), np.eye(2), atol=1e-9)
+                ok = np.allclose(superop(ks), doc(p), atol=1e-9) and np.allclose(sum(k.conj().T @ k for k in ks), np.eye(len(ks[0])), atol=1e-9)
+                ch = mk(p)
+                if ok and cirq.has_mixture(ch):
+                    mix = cirq.mixture(ch)
+                    ok = abs(sum(q for q, _ in mix) - 1) < 1e-9 and np.allclose(sum(q * np.kron(u, u.conj()) for q, u in mix), doc(p), atol=1e-9)
                 return ok, "" if ok else f"Kraus operators of {name} at p={p} differ from the documented channel or are not trace preserving"
             obls.append(_ob(f"C03/cirq-core/cirq/ops/common_channels.py#kraus[{name}; p={p}]", fn, case=name))
     for o in obls:
@@ -196,7 +222,7 @@ def standin_channels(tier, seed):
     obls = reps[0].obligations
     fails = [dict(args=dict(channel=o.case), failed="kraus", clause=o.detail) for o in obls if o.status != "proved"]
     return dict(function="cirq-core/cirq/ops/common_channels.py[kraus vs documented channel]", case="channels",
-                bound="6 single-qubit channels x 6 parameter values", cases=len(obls), distinct=len(obls), failures=len(fails), exhaustive=False, _fails=fails[:3])
+                bound="6 single-qubit channels and 6 Pauli-dictionary channels (1-2 qubits, unsorted / implied identity) x 6 parameter values; Kraus and mixture", cases=len(obls), distinct=len(obls), failures=len(fails), exhaustive=False, _fails=fails[:3])
 standin_channels.prop = "C03"
 
 
